@@ -45,6 +45,9 @@ def _spec(draw, tier):
         spec["csr_aw"] = draw(st.one_of(st.integers(1, 8), st.integers(9, 14)))
     else:
         spec["lay"] = draw(gens.csr_layout(max_regs=4, dws=(csr_dw,), overlaps=False, high=True))
+        # bridge -> csr.Decoder -> multiplexer: the multiplexer is the decoder's only window and does
+        # not fill it (this many further address bits); words above the window belong to nobody
+        spec["via_decoder"] = draw(st.sampled_from([0, 0, 0, 1, 2]))
     return spec
 
 
@@ -76,6 +79,13 @@ def check(spec, stats):
         mm = mux.bus.memory_map
         csr_aw = mm.addr_width
         csr_bus = mux.bus
+        dec = None
+        if spec.get("via_decoder"):
+            dec = csr.Decoder(addr_width=csr_aw + spec["via_decoder"], data_width=csr_dw)
+            dec.add(mux.bus, addr=0)
+            csr_aw += spec["via_decoder"]
+            csr_bus = dec.bus
+            stats.label("B:through_a_decoder_with_one_window")
         regs = [Reg(s, e, r["w"], r["acc"]) for (reg, s, e), r in zip(built, lay["regs"])]
     legal = legal_ratio and csr_aw >= ratio.bit_length() - 1
     try:
@@ -110,7 +120,7 @@ def check(spec, stats):
         stats.label("upper_half_address", wb.addr_width > 0 and tr["adr"] >= (1 << wb.addr_width) // 2)
     stats.label("cyc_only", any(c["cyc"] and not c["stb"] and not c["exp_ack"] for c in cycles))
     g = csr_dw
-    top = sim.wrap(bridge, *([mux] if mux else []))
+    top = sim.wrap(bridge, *([mux] if mux else []), *([dec] if mux and dec else []))
     table = {}
     model = MuxModel(csr_dw, regs, conservative=True) if regs else None
     elems = [b[0].element for b in built] if built else []
